@@ -39,26 +39,33 @@ def derived_keys(labels):
     return out
 
 
+def safe_repr(k):
+    try:
+        return repr(k)[:80]
+    except Exception:             # (the repr of a zero-frame track raises in numpy; that is not what is being judged here)
+        return f"<{type(k).__name__} object>"
+
+
 def mk(kind, labels, rng):
-    n = 3
+    n = rng.choice([0, 1, 3, 3])        # also blocks whose items are EMPTY (0 frames): an item is an item whatever its length
     if kind == "data3d":
         from basictdf.tdfData3D import Data3D, MarkerTrack
         b = Data3D(100, n, A.f32(A.gen_vec(rng, 3)), A.f32(A.gen_vec(rng, 9)).reshape(3, 3), A.f32(A.gen_vec(rng, 3)))
         for l in labels:
-            b.add_track(MarkerTrack(l, A.frames_array(A.gen_frames(rng, 3, n), 3)))
+            b.add_track(MarkerTrack(l, A.frames_array(A.gen_frames(rng, 3, n), 3) if n else np.zeros((0, 3), dtype="<f4")))
         return b
     if kind == "force3d":
         from basictdf.tdfForce3D import ForceTorque3D, ForceTorqueTrack
         b = ForceTorque3D(100, n, A.f32(A.gen_vec(rng, 3)), A.f32(A.gen_vec(rng, 9)).reshape(3, 3), A.f32(A.gen_vec(rng, 3)))
         for l in labels:
-            a = A.frames_array(A.gen_frames(rng, 9, n), 9)
+            a = A.frames_array(A.gen_frames(rng, 9, n), 9) if n else np.zeros((0, 9), dtype="<f4")
             b.add_track(ForceTorqueTrack(l, a[:, 0:3].copy(), a[:, 3:6].copy(), a[:, 6:9].copy()))
         return b
     if kind == "emg":
         from basictdf.tdfEMG import EMG, EMGTrack
         b = EMG(1000, n)
         for l in labels:
-            b.addSignal(EMGTrack(l, A.frames_array(A.gen_frames(rng, 1, n), 1)[:, 0]))
+            b.addSignal(EMGTrack(l, A.frames_array(A.gen_frames(rng, 1, n), 1)[:, 0] if n else np.zeros((0,), dtype="<f4")))
         return b
     from basictdf.tdfEvents import Event, EventsDataType, TemporalEventsData
     b = TemporalEventsData()
@@ -190,7 +197,7 @@ def run(ctx):
             ctx.fail(f"{kind}: len() = {ln} but iteration yields {o['n_items']} items ({len(labels)} expected)", rp, ident=f"{kind} len != iteration")
             continue
         for (kk, kv, out, cont), m in zip(obs, rep):
-            where = f"{kind} labels={labels}" + (f" (after {edits})" if edits else "") + f" key={kv!r}"
+            where = f"{kind} labels={labels}" + (f" (after {edits})" if edits else "") + f" key={safe_repr(kv)}"
             # oracle
             if kk == "idx" and isinstance(kv, int):
                 n = len(labels)
